@@ -201,7 +201,7 @@ func runC10KMS(t *simrt.Tape, o Opts) Outcome {
 			}
 			nodes[r] = &fakeRegion{s: s, region: r, arn: arn[r], master: mk, log: &log, handed: &handed, rnd: rnd}
 		}
-		crypto := aead.NewAES256GCM()
+		crypto := &flakyAEAD{AEAD: aead.NewAES256GCM()}
 		build := func(v2 bool, arn map[string]string) (appencryption.KeyManagementService, error) {
 			if v2 {
 				return pluginv2.NewBuilder(crypto, arn).WithPreferredRegion(regions[pref]).WithAWSConfig(aws.Config{}).
@@ -272,6 +272,12 @@ func runC10KMS(t *simrt.Tape, o Opts) Outcome {
 					st.Faults["region.slow"]++
 				}
 			}
+		}
+		// the local encryption of the system key under the fresh data key can fail after the data key
+		// exists: the wrap fails, the data key is wiped all the same
+		if t.Choose(8, "aead-fails") == 1 {
+			crypto.failEncrypt = true
+			st.Faults["aead.local-encrypt-fails"]++
 		}
 		blob, err := wrapper.EncryptKey(context.Background(), sk)
 		zero("EncryptKey")
